@@ -201,7 +201,7 @@ def run(ctx):
                     v = g.speed_knots
                     g.speed_knots = 0.0 if round(v, 1) <= 0 else (round(v, 1) if round(v, 1) < 10 else float(min(round(v), 999)))
                 stage = "parse"
-                p = HDAP.from_bytes(fr)
+                p = HDAP.from_bytes(gen.as_caller_bytes(fr, len(fr)))
                 owned.append(p)
                 s["frame2"] = list(p.as_bytes())
                 s["fields_equal"] = struct(p) == struct(o)
@@ -220,7 +220,7 @@ def run(ctx):
                         h.packet_number = (65535 - low0) if rnd % 3 == 0 else (65535 - h0 - low0) % 65536
                 hb = h.as_bytes()
                 s["hrnp"] = list(hb)
-                hp = HRNP.from_bytes(hb)
+                hp = HRNP.from_bytes(gen.as_caller_bytes(hb, len(hb) + 1))
                 owned += [h, hp]
                 s["hrnp2"], s["hrnp_ok"] = list(hp.as_bytes()), bool(hp.checksum_correct)
                 stage = "hstrp"
